@@ -307,6 +307,19 @@ def gen_table(rng, kind="f0", **kw):
         gen_translation_rules(rng, t)
         gen_passes(rng, t, per_stage=kw.get("per_stage", (0, 3)), stages=("correct", "pass2", "pass3", "pass4"),
                    literal_only=True, biased_nonconsuming=kw.get("biased", False))
+        lows_ = [c for c in t.chars() if 0x61 <= c <= 0x7a]
+        if len(lows_) >= 3 and rng.random() < 0.3:
+            # a swap class applied to a RUN of characters / cells: every swapped element keeps its own position in the maps
+            # (seeded change C07-H gave the whole run the position of its first element)
+            src = rng.sample(lows_, 3)
+            if rng.random() < 0.5:
+                t.rules.append(Rule(None, raw="swapcc swr %s %s" % (chars_str(src), chars_str(src[1:] + src[:1]))))
+                t.rules.append(Rule(None, raw="noback correct [%%swr%s] %%swr" % rng.choice(["1-3", ".", "2-4", "2"])))
+            else:
+                cl = [t.charcell[c] for c in src]
+                if all(cl) and len(set(cl)) == 3:
+                    t.rules.append(Rule(None, raw="swapdd swr %s %s" % (",".join(dots_str(x) for x in cl), ",".join(dots_str(x) for x in cl[1:] + cl[:1]))))
+                    t.rules.append(Rule(None, raw="noback pass2 [%%swr%s] %%swr" % rng.choice(["1-3", ".", "2-4", "2"])))
         if kw.get("context"):
             # context rules inside the main pass, both directions (LouModel/ForwardCtx.lean, BackwardCtx.lean)
             gen_passes(rng, t, per_stage=(1, 3), stages=("context",), directions=("noback", "nofor"), literal_only=True,
